@@ -32,11 +32,13 @@ type witness struct {
 	Bonus  int      `json:"bonus,omitempty"`
 }
 
+// the band layout is the engine's own (exported constants of package heur): the property asks that
+// the designed bands are respected and cannot be confused, not for particular numbers. TestCheck
+// asserts that the layout itself keeps the bands apart.
 const (
-	k          = 1024
-	hashW      = 16 * k
-	captures   = 7 * k
-	maxHistory = k
+	hashW      = int(heur.HashMove)
+	captures   = int(heur.Captures)
+	maxHistory = int(heur.MaxHistory)
 )
 
 type state struct {
@@ -211,6 +213,9 @@ func saturate(rng *rand.Rand, mr *heur.MoveRanker, ms *move.Store, hst *stack.St
 
 func TestCheck(t *testing.T) {
 	r := ev.Start("C16")
+	if !(maxHistory > 0 && captures > 3*maxHistory && hashW > captures) {
+		r.Violation("C16:band-layout", witness{Kind: "layout"}, fmt.Sprintf("heur.MaxHistory=%d heur.Captures=%d heur.HashMove=%d: the quiet band (+-3*MaxHistory) is not strictly inside (-Captures, Captures) or the hash weight is not above the capture band", maxHistory, captures, hashW))
+	}
 	if err := ref.SelfTest(); err != nil {
 		r.HarnessError("%v", err)
 		r.Finish()
@@ -360,7 +365,7 @@ func oneStep(r *ev.Run) {
 			r.Violation("C16:history-one-step-bound:"+name, witness{Kind: "one-step", Table: name, Stored: stored, Bonus: bonus}, fmt.Sprintf("%s: stored %d, Add(%d) -> %d, outside +-%d", name, stored, bonus, got, maxHistory))
 		}
 	}
-	const lo, hi = -1100, 1100
+	const lo, hi = -maxHistory - 76, maxHistory + 76
 	jobs := []job{
 		{"history", func(e0, e1 int) {
 			h := heur.NewHistory()
@@ -434,8 +439,8 @@ func oneStep(r *ev.Run) {
 	}
 	var units []unit
 	for _, j := range jobs {
-		for e := -1024; e <= 1024; e += 129 {
-			units = append(units, unit{j, e, min(e+129, 1025)})
+		for e := -maxHistory; e <= maxHistory; e += 129 {
+			units = append(units, unit{j, e, min(e+129, maxHistory+1)})
 		}
 	}
 	ev.Parallel(len(units), func(wk, i int) {
@@ -446,7 +451,7 @@ func oneStep(r *ev.Run) {
 		r.Count("one_step_cases", int64(n))
 		r.Count("one_step_cases_"+u.j.name, int64(n))
 	})
-	r.Sample(map[string]any{"kind": "one-step-bound", "tables": []string{"history", "capthist", "continuation"}, "stored": "[-1024,1024]", "bonus": "[-1100,1100]", "exhaustive": true})
+	r.Sample(map[string]any{"kind": "one-step-bound", "tables": []string{"history", "capthist", "continuation"}, "stored": fmt.Sprintf("[-%d,%d]", maxHistory, maxHistory), "bonus": fmt.Sprintf("[%d,%d]", lo, hi), "exhaustive": true})
 }
 
 func replay(t *testing.T, r *ev.Run) {
